@@ -150,7 +150,11 @@ func parseCertificates(pemData []byte) (*Certificate, error) {
 // Parse certificates from DER
 func parseCertificatesDer(der []byte) (*Certificate, error) {
 	var certs []*x509.Certificate
-	if bytes.Contains(der[:32], pkcs7SignedData) {
+	head := der
+	if len(head) > 32 {
+		head = head[:32]
+	}
+	if bytes.Contains(head, pkcs7SignedData) {
 		psd, err := pkcs7.Unmarshal(der)
 		if err != nil {
 			return nil, err
